@@ -115,10 +115,12 @@ def factory_table(F):
         assigned_ok = True
         if news:
             cls = news[0].get('rec')
-            # the new expression must be assigned to the result variable
+            # the new expression must be assigned to the result variable, or returned directly
             asg = [n for s_ in stmts for n in walk(s_) if n.get('k') == 'Bin' and n.get('op') == '=' and
                    strip_all_casts(n['lhs']).get('id') == (rv or {}).get('id')]
-            assigned_ok = len(asg) == 1 and len(news) == 1
+            rets = [n for s_ in stmts for n in walk(s_) if n.get('k') == 'Return' and strip_all_casts(n.get('value') or {}).get('k') == 'New']
+            assigned_ok = (len(asg) == 1 or len(rets) == 1) and len(news) == 1
+            others = [o for o in others if o.get('k') != 'Return']
         for lab in labels:
             if lab['k'] == 'Default':
                 has_default = True
@@ -161,7 +163,8 @@ def D123(F, rep):
     init_null = rv is not None and strip_all_casts(rv.get('init') or {}).get('lit') == 'null'
     rets = [n for n in walk(fn['body']) if n.get('k') == 'Return']
     ret_ok = bool(rets) and all(strip_all_casts(r_.get('value') or {}).get('id') == (rv or {}).get('id') or
-                                strip_all_casts(r_.get('value') or {}).get('lit') == 'null' for r_ in rets)
+                                strip_all_casts(r_.get('value') or {}).get('lit') == 'null' or
+                                strip_all_casts(r_.get('value') or {}).get('k') == 'New' for r_ in rets)
     rep.ob('D2', 'result|null-init', init_null and ret_ok, rep.fn_site(fn),
            'createObject returns a variable initialised to nullptr (so any value outside the enumeration, 0..2^32-1, yields nothing)' if init_null and ret_ok
            else 'createObject result variable is not null-initialised / not the single returned value', nontrivial=True)
